@@ -1,6 +1,15 @@
 """C08 - a failing rule never changes other rules' output; every query is accounted for."""
 import itertools, copy
-from vlib.core import Property, Suite, cstr, clist, cbool, cnat
+from vlib.core import Property, Suite, clist, cbool, cnat
+from vlib.core import cstr as _cstr
+
+
+def cstr(s):
+    """ASCII strings as Coq string literals (much cheaper to parse than lists of numbers); Run.C08run.Sx decodes"""
+    if all(32 <= ord(ch) < 127 or ch == '\n' for ch in s):
+        return '(Sx "' + s.replace('"', '""') + '"%s8)'
+    return _cstr(s)
+
 
 SIGMA = {"SigmaValueError": 1, "SigmaPlaceholderError": 2, "SigmaTypeError": 3, "SigmaConditionError": 4,
          "SigmaRegularExpressionError": 5, "SigmaModifierError": 6, "SigmaConversionError": 7,
@@ -71,25 +80,17 @@ def gen(tier, rng):
     out = []
     cfgs = [(p, f, c) for p in (True, False) for f in ("test", "default") for c in (True, False)]
     # 1. exhaustive: every sequence of rule variants, every position of every failure stage
-    nmax_all = 2 if quick else 3
-    for n in range(1, nmax_all + 1):
+    for n in range(1, (2 if quick else 3) + 1):
         for (p, f, c) in cfgs:
-            for t in itertools.product(BASIC if p else BASIC + [], repeat=n):
+            for t in itertools.product(BASIC, repeat=n):
                 out.append(mk(t, p, f, c))
-    for n in ([3] if quick else [4]):
-        for (p, f, c) in [(True, "test", True), (True, "test", False), (False, "default", True)]:
-            for t in itertools.product(BASIC if p else [r for r in BASIC if r["stage"] == "ok" or True], repeat=n):
-                if p or any(r["stage"] != "pipe" for r in t):
-                    out.append(mk(t, p, f, c))
-    # n = 4 (quick: one configuration, collecting) ; thorough: n = 5 over a reduced alphabet
-    if quick:
-        alpha = [BASIC[0], BASIC[1], BASIC[2], BASIC[3], BASIC[5]]
-        for t in itertools.product(alpha, repeat=4):
-            out.append(mk(t, True, "test", True))
-    else:
-        alpha = [BASIC[1], BASIC[2], BASIC[3], BASIC[5]]
-        for t in itertools.product(alpha, repeat=5):
-            out.append(mk(t, True, "test", True))
+    for (p, f, c) in [(True, "test", True), (True, "test", False), (False, "default", True)]:
+        for t in itertools.product(BASIC, repeat=3 if quick else 4):
+            out.append(mk(t, p, f, c))
+    # one more rule over a reduced alphabet (fine multi-condition, pipeline failure, placeholder, missing detection)
+    alpha = [BASIC[1], BASIC[2], BASIC[3], BASIC[5]]
+    for t in itertools.product(alpha, repeat=4 if quick else 5):
+        out.append(mk(t, True, "test", True))
     # 2. one failing multi-condition / finalisation-stage variant at every position among fine rules
     for n in range(1, 5 if quick else 7):
         for pos in range(n):
@@ -98,23 +99,27 @@ def gen(tier, rng):
                 t[pos] = bad
                 for c in (True, False):
                     out.append(mk(t, True, "test", c))
-                out.append(mk(t, False, "default", True))
-    # 3. correlation rules on top: all reference subsets over up to 3 detection rules, every stage of the
+                if not quick or n <= 2:
+                    out.append(mk(t, False, "default", True))
+    # 3. correlation rules on top: all reference subsets over up to 2 (3) detection rules, every stage of the
     #    correlation rule itself, generate on/off, and a second correlation rule nested on the first
-    small = [BASIC[0], BASIC[1], BASIC[3], BASIC[2], D(["ok"], "fin")]
+    small = [BASIC[0], BASIC[1], BASIC[3], D(["ok"], "fin"), BASIC[2]]
     for n in (1, 2) if quick else (1, 2, 3):
-        for t in itertools.product(small if n < 3 else small[:3], repeat=n):
+        alpha = small if (n == 1 or (n == 2 and not quick)) else small[:4] if n == 2 else small[:3]
+        for t in itertools.product(alpha, repeat=n):
             for k in range(1, n + 1):
                 for refs in itertools.combinations(range(n), k):
                     for g in (True, False):
                         for st in ("ok", "pipe", "fin"):
+                            if quick and n == 2 and st == "pipe":
+                                continue
                             for c in ((True,) if (quick and n == 2 and st != "ok") else (True, False)):
                                 out.append(mk(list(t) + [Cr(refs, g, st)], True, "test", c))
                         out.append(mk(list(t) + [Cr(refs, g)], False, "default", True, fcs=g))
                         out.append(mk(list(t) + [Cr(refs, g), Cr([n], not g)], True, "test", True))
                         out.append(mk(list(t) + [Cr(refs, g), Cr([n, 0], g, "ok")], True, "default", True, fcs=not g))
     # 4. random collections of 1..6 rules (+ up to 3 correlation rules), any subset failing
-    for _ in range(700 if quick else 12000):
+    for _ in range(450 if quick else 12000):
         n = rng.randint(1, 6)
         p = rng.random() < 0.7
         pfail = rng.choice([0.0, 0.2, 0.5, 0.8])
@@ -153,7 +158,7 @@ def coutcome(r, key="q"):
 
 def to_coq(c, r):
     if "exc" in r and "res" not in r:     # the runner itself failed: never acceptable
-        return f"({{| k_test := false; k_pipe := false |}}, false, false, ([] : list (rule dr cr)), (Crash 96), [], false, [])"
+        return f"({{| k_test := false; k_pipe := false |}}, false, false, ([] : list (rule dr cr)), (Crash 96 : outcome (list str)), ([] : list (nat * N)), false, ([] : list (outcome (list str))))"
     pipe = bool(c["pipe"])
     rules = []
     for i, ru in enumerate(c["rules"]):
@@ -178,7 +183,7 @@ def to_coq(c, r):
     order_ok = cbool(r["order"] == list(range(len(c["rules"]))))
     al = clist(coutcome(a) for a in r["alone"])
     K = f"{{| k_test := {cbool(c['fmt'] == 'test')}; k_pipe := {cbool(pipe)} |}}"
-    return f"({K}, {cbool(c.get('fcs', False))}, {cbool(c['collect'])}, ({clist(rules)} : list (rule dr cr)), {ires}, {ierrs}, {order_ok}, {al})"
+    return f"({K}, {cbool(c.get('fcs', False))}, {cbool(c['collect'])}, ({clist(rules)} : list (rule dr cr)), ({ires} : outcome (list str)), ({ierrs} : list (nat * N)), {order_ok}, ({al} : list (outcome (list str))))"
 
 
 def mutate(c, rng):
